@@ -7,6 +7,7 @@ EXPLANATION = ("R-ORDER enqueue-then-unlock-then-park in Condvar::wait_impl, R-P
                "re-lock inside a cancel-disabled region, R-SIB forwarding handshake for a waiter that times out / is cancelled, "
                "exactly one mutex release on the Canceled arm of wait/wait_timeout; Barrier leader/follower shape; WaitGroup "
                "count updates under the lock and notify_all on zero")
+EXPLANATION_2 = ('Condvar front-ends: Cancel panic only (and always) for a Canceled wait after releasing the mutex, wait_while waits only while the condition holds and returns only when it is false, the re-lock guard is never dropped; WaitGroup::wait leaves before waiting; Mutex cancel arm')
 NOT_DECIDED = "which waiter is woken; spurious wake-ups; generation overflow; liveness"
 CONFIGS_QUICK = ["default"]
 
@@ -167,3 +168,4 @@ def check(ctx):
     mutex_cancel_arm_rules(ctx)
     ctx.import_rules("C02", r"^(sync-blocker|blocker|fast-blocker|thread-park)/")
     condvar_frontend_rules(ctx)
+    wait_group_rules(ctx)
